@@ -51,6 +51,11 @@ fn run_depth(ctx: &mut Ctx, rng: &mut Rng, depth: u8, z: &dyn ZOrderCurve, tag: 
       }}
     }
   }}
+  // boundary values of each coordinate: 0, 1, all ones, all ones - 1, and 2^p - 1, 2^p, 2^p + 1 for every p (all pairs)
+  let mut bv: Vec<u32> = vec![0, 1, mask, mask.wrapping_sub(1) & mask];
+  for p in 1..depth as u32 { for o in [-1i64, 0, 1].iter() { let v = (1i64 << p) + o; if v >= 0 && (v as u64) < lim { bv.push(v as u32); } } }
+  bv.sort(); bv.dedup();
+  for &i in bv.iter() { for &j in bv.iter() { judge_pair(ctx, z, tag, depth, i, j); if i != 0 && j != 0 { ctx.hard(&format!("{}:boundary-values", tag), &[depth as u64, i as u64, j as u64]); } } }
   for _ in 0..n_random {
     let (i, j) = (rng.next() as u32 & mask, rng.next() as u32 & mask);
     judge_pair(ctx, z, tag, depth, i, j);
